@@ -10,6 +10,7 @@
 -/
 import Scico.Proofs.Block
 import Scico.Proofs.BlockRandom
+import Scico.Proofs.BlockTree
 
 namespace Scico.Props.C13
 open Scico.Block
@@ -148,7 +149,7 @@ theorem C13_search_order (args : List (PyVal α)) (kwargs : List (String × PyVa
 
 /-- For any `f` and any mix of positional / keyword block arguments the result is
     `[f(args↓i, kwargs↓i)]ᵢ`, `i < n`, `n` the block count of the first block argument. -/
-theorem C13_map_blocks (E : Env α δ) (f : List (PyVal α) → List (String × PyVal α) → Res α)
+theorem C13_map_blocks_partial (E : Env α δ) (f : List (PyVal α) → List (String × PyVal α) → Res α)
     (args : List (PyVal α)) (kwargs : List (String × PyVal α)) (l0 : List α)
     (hfirst : FirstBlk (args ++ kwargs.map Prod.snd) l0) (hpos : 0 < l0.length)
     (hlen : ∀ v ∈ args ++ kwargs.map Prod.snd, ∀ l, v = PyVal.blk l → l.length = l0.length)
@@ -172,7 +173,7 @@ theorem C13_map_blocks (E : Env α δ) (f : List (PyVal α) → List (String × 
 
 /-- The full statement — *whatever* the per-block function returns (also tuples, as `frexp` or
     `linalg.eig` do), the result is the list of the per-block results — is NOT claimed: it fails on
-    the code as it is (finding `map-blocks-tuple-results`).  `C13_map_blocks` above is the proved part:
+    the code as it is (finding `map-blocks-tuple-results`).  `C13_map_blocks_partial` above is the proved part:
     it needs `harr` (the per-block results are arrays). -/
 def C13_map_blocks_stmt : Prop :=
   ∀ (α δ : Type) [DecidableEq δ] (E : Env α δ) (f : List (PyVal α) → List (String × PyVal α) → Res α)
@@ -298,7 +299,7 @@ theorem C13_full_reduction_axis (E : Env α δ)
     rcases List.mem_append.1 hkv with h | h
     · exact hpre kv h
     · exact hpost kv h
-  refine C13_map_blocks E f [] (pre ++ post ++ [(k, PyVal.blk bs)]) bs ?_ hpos ?_
+  refine C13_map_blocks_partial E f [] (pre ++ post ++ [(k, PyVal.blk bs)]) bs ?_ hpos ?_
     (fun _ => []) (fun i => if hi : i < bs.length then pre ++ post ++ [(k, PyVal.one bs[i])] else [])
     (fun i _ => ⟨rfl, fun j h1 _ => by simp at h1⟩) ?_ r ?_ harr hdt
   · refine ⟨(pre ++ post).map Prod.snd, [], by simp, ?_⟩
@@ -474,6 +475,24 @@ theorem C13_pytree_placeholders (E : Env α δ) (children : List α) :
         rw [this] at he
         exact ⟨(Except.error.inj he).symm, harr, hh⟩
     · simp [hall] at he
+
+/-- block arrays nested inside tuples / lists / dicts (and next to other leaves): with jax's flatten /
+    unflatten recursion, `tree_unflatten(tree_structure(t), tree_leaves(t)) = t` whenever every block array
+    node of `t` is acceptable (holds a non-array placeholder, or arrays of one dtype) -/
+theorem C13_pytree_nested (E : Env α δ) (t : PT α) (h : t.Ok E) :
+    unflat E t.struct t.leaves = .ok (t, []) := by
+  simpa using unflat_leaves E t [] h
+
+/-- … and for ANY leaves (tracers, placeholders, results of a mapped function): whatever
+    `tree_unflatten` returns has the requested structure and exactly the given leaves, in order and
+    untouched; in particular `tree_map f t`, when it succeeds, is `t` with every leaf `a` replaced by
+    `f a` — block by block for the block arrays inside -/
+theorem C13_pytree_nested_sound (E : Env α δ) :
+    (∀ (s : PT Unit) (l : List α) (t : PT α) (r : List α),
+      unflat E s l = .ok (t, r) → t.struct = s ∧ t.leaves ++ r = l) ∧
+    (∀ (f : α → α) (t t' : PT α), treeMap E f t = .ok t' →
+      t'.struct = t.struct ∧ t'.leaves = t.leaves.map f) :=
+  ⟨unflat_sound E, treeMap_sound E⟩
 
 /-- before d088c11 every leaf went through the constructor: a leaf that `jnp.array` rejects made
     `unflatten` raise (finding `blockarray-pytree-placeholder-leaves`, repaired) -/
@@ -716,7 +735,7 @@ example : mapFuncOverBlocks exEnv
       | _, _ => .error .type)
     [.blk [[1, 2], [3]], .one [10]] [("out", .blk [[7, 7], [7]])]
     = .ok (.blk [[17, 27], [37]]) := by decide
--- the hypotheses of `C13_map_blocks` are satisfiable: first block found after a scalar
+-- the hypotheses of `C13_map_blocks_partial` are satisfiable: first block found after a scalar
 example : FirstBlk ([PyVal.one [0], PyVal.blk [[1, 2], [3]]] ++ ([] : List (String × PyVal (List Int))).map Prod.snd)
     [[1, 2], [3]] := ⟨[PyVal.one [0]], [], rfl, by simp [PyVal.isBlk]⟩
 -- full reduction: sum over the concatenation, and per-block sums fold to the same value
@@ -737,6 +756,17 @@ example : setItem exEnv [[1, 2], [3]] (-1) [9] = .ok [[1, 2], [9]] := by decide
 example : setItem exEnv [[1, 2], [3]] 2 [9] = (.error .index : Res (List (List Int))) := by decide
 -- placeholder leaves are stored untouched: dtype = parity, arrays = even numbers; [1, 4] has a non-array leaf
 example : treeUnflatten (⟨fun x => x % 2 == 0, fun _ => .error .type, fun x => x⟩ : Env Nat Nat) () [1, 4] = .ok [1, 4] := by decide
+-- a dict {a: BlockArray([2, 4]), b: (7, BlockArray([1, 6]))} with dtype = parity, arrays = even numbers:
+-- the second block array holds a non-array leaf (a placeholder), the first one arrays of one dtype
+def exTree : PT Nat := .tup [.blk [2, 4], .tup [.leaf 7, .blk [1, 6]]]
+def exEnvP : Env Nat Nat := ⟨fun x => x % 2 == 0, fun _ => .error .type, fun x => x % 2⟩
+example : exTree.leaves = [2, 4, 7, 1, 6] := by decide
+example : unflat exEnvP exTree.struct [2, 4, 7, 1, 6] = .ok (exTree, []) := by rfl
+example : exTree.Ok exEnvP := by
+  refine ⟨Or.inr ⟨by decide, ?_⟩, ⟨trivial, Or.inl (by decide), trivial⟩, trivial⟩
+  intro a ha b hb
+  simp at ha hb
+  rcases ha with rfl | rfl <;> rcases hb with rfl | rfl <;> rfl
 -- scico.random: universe = Nat, keys = seeds = Nat, `PRNGKey s = 100 + s`, `split(k)[0] = 2 k`,
 -- a draw with key `k` and shape tree `t` gives `k + t.prod`
 def exPrims : RngPrims Nat Nat Unit :=
